@@ -2,7 +2,7 @@
    the model, which has no component shared between evaluators; data-race freedom of the
    Go runtime, the generated code's lazily initialised statics and the ANTLR caches is
    sampled with the race detector). *)
-From Rules Require Import Eval Histories SourceProofs.
+From Rules Require Import Eval Histories SourceC12.
 
 (* for EVERY interleaving of per-goroutine operations, each goroutine observes exactly what
    it observes running alone *)
@@ -11,10 +11,11 @@ Theorem C12_interleaving :
 Proof. exact c12_interleaving. Qed.
 Print Assumptions C12_interleaving.
 
-(* checked on the source of this run: no package-level variable except the two error
-   sentinels, none assigned or address-taken, no goroutine started by the package *)
+(* checked on the source of this run: the hand-written code starts no goroutine, never assigns to
+   or through a package-level variable, never takes the address of one, and mentions
+   package-level variables only in ways that cannot change them (see SourceC12.use_ok) *)
 Theorem C12_no_shared_state :
-  forallb (fun v => sentinel (fst (fst v))) SourceFacts.pkg_vars = true /\
+  forallb (fun u => use_ok (kind_of (snd (fst u))) (snd u)) SourceFacts.pkg_uses = true /\
   SourceFacts.pkg_assigns = [] /\ SourceFacts.go_stmts = [].
 Proof. exact c12_no_shared_state. Qed.
 Print Assumptions C12_no_shared_state.
